@@ -5,7 +5,7 @@
 (* Grid container operations (grid.py), Agent / State equality, and the    *)
 (* derived getters of the spaces (spaces.py).                              *)
 (***************************************************************************)
-EXTENDS GVRepresentation, Json, IOUtils, TLC
+EXTENDS GVRepresentation, GVObservation, Json, IOUtils, TLC
 
 Recs == ndJsonDeserialize(IOEnv.TRACE_FILE)
 VARIABLE i
@@ -31,6 +31,8 @@ OK(r) ==
     [] r.kind = "grid_types" -> ToSet(r.types) = GridTypes(r.g)
     [] r.kind = "grid_get" -> r.res = (IF InGrid(r.g, r.p) THEN Cell(r.g, r.p) ELSE r.default)
     [] r.kind = "grid_swap" -> r.after = Swap(r.g, r.p, r.q)
+    \* Grid.subgrid: any area, inside, overlapping or outside the grid; cells beyond the grid are Hidden
+    [] r.kind = "grid_subgrid" -> r.res = SubGrid(r.g, r.area)
     [] r.kind = "state_eq" -> r.eq = StateEq(r.s1, r.s2) /\ (r.eq => r.hasheq)
     [] r.kind = "space_getters" ->
          LET sp == Sp(r.space)
